@@ -515,10 +515,18 @@ def run(ctx):
     if ctx.replay:
         # re-run exactly the recorded scenario (fresh ports, same nodes and steps)
         rp = json.load(open(ctx.replay))["replay"]
-        sp = rp["spec"]
-        n = len(sp["nodes"])
-        scen = [(rp.get("scenario", "replay"), {"kind": sp["kind"], "name": "default", "nodes": sp["nodes"], "topology": None,
-                                                "ports": ports.pool(3 * n + 6), "steps": sp["steps"], "limits": LIMITS})]
+        sp = rp.get("spec") if isinstance(rp, dict) else None
+        if sp is None:
+            # a witness of one of the fixed in-process parts (late connection): they are re-run in full together with the standard scenarios
+            scen = build_scenarios(ctx, ports)
+        else:
+            n = len(sp["nodes"])
+            spec = {"kind": sp["kind"], "name": "default", "nodes": sp["nodes"], "topology": None,
+                    "ports": ports.pool(3 * n + 6), "steps": sp.get("steps", []), "limits": LIMITS}
+            for k in ("behaviour", "user_settings"):
+                if k in sp:
+                    spec[k] = sp[k]
+            scen = [(rp.get("scenario", "replay"), spec)]
     else:
         scen = build_scenarios(ctx, ports)
     per_timeout = 420 if thorough else 150
